@@ -144,13 +144,38 @@ func (s *sim) visit(p, kind int, payload interface{}, wbytes []byte) {
 	switch a.Nest {
 	case 1:
 		w := s.r.nestW[k]
-		s.deliver(kWrite, p, w.msg, w.bytes)
+		s.protected(func() { s.deliver(kWrite, p, w.msg, w.bytes) })
 	case 2:
-		s.deliver(kEvent, p, s.r.nestE[k], nil)
+		s.protected(func() { s.deliver(kEvent, p, s.r.nestE[k], nil) })
+	}
+	if a.Panic && kind != kExc && kind != kInactive {
+		panic(simPanic{s.r.panE[k]})
+	}
+	if kind == kExc && s.r.stopB != nil && s.m.els[p].b == s.r.stopB {
+		return
 	}
 	if a.Fwd {
 		s.deliver(kind, p, payload, wbytes)
 	}
+}
+
+// simPanic is a handler panic travelling up the model's own call stack.
+type simPanic struct{ ex error }
+
+// protected mirrors the recovery points of the library (handlerContext.Write / Trigger, Channel.Write / Trigger):
+// a panic of the handlers invoked by fn becomes an exception event that enters the pipeline at the head; a panic
+// raised while that exception is being delivered travels on to the next enclosing recovery point.
+func (s *sim) protected(fn func()) {
+	defer func() {
+		if r := recover(); r != nil {
+			sp, ok := r.(simPanic)
+			if !ok {
+				panic(r)
+			}
+			s.deliver(kExc, 0, sp.ex, nil)
+		}
+	}()
+	fn()
 }
 
 // close mirrors Channel.Close: the first close fires inactive from the head.
